@@ -15,6 +15,9 @@ func hIterOps(N, L, nOps int, kinds []base.InternalKeyKind, bounded, limits, set
 	n := 1 + sym.Choose("n", N)
 	h := hHistory(n, kinds)
 	hPlace(h, L)
+	if hUseLevelIter {
+		hNoRangeDelAtBottom(h, L)
+	}
 	readSeq := base.SeqNum(sym.Range("readSeq", 1, n+1))
 
 	ref := hNewIterator(hBuildLevels(h, L), readSeq, nil)
@@ -216,3 +219,14 @@ func VerifHarness_C02_Limits() { hIterOps(2, 2, 2, hSetDelRDel, false, true, fal
 
 func VerifHarness_C02_Ops3_Thorough() { hIterOps(2, 2, 3, hSetDelRDel, false, false, false) }
 func VerifHarness_C02_All_Thorough()  { hIterOps(3, 2, 3, hSetDelRDel, true, true, true) }
+
+// bounds and SetBounds with the real levelIter as the bottom level (bounds propagation)
+func VerifHarness_C02_BoundsLevelIter_Thorough() {
+	hUseLevelIter = true
+	hIterOps(2, 2, 2, hSetRDel, true, false, false)
+}
+
+func VerifHarness_C02_SetBoundsLevelIter_Thorough() {
+	hUseLevelIter = true
+	hIterOps(2, 2, 3, hSetRDel, false, false, true)
+}
